@@ -18,6 +18,7 @@ import (
 	"errors"
 	"net/http"
 	"os"
+	"path"
 	"path/filepath"
 )
 
@@ -79,7 +80,7 @@ func newStaticFile(root string, filename string, encodingList []string, m *Modul
 
 	for _, encoding := range encodingList {
 		ext := ConvertEncodeToExt(encoding)
-		if _, err := os.Stat(filepath.Join(root, filename+"."+ext)); err == nil {
+		if _, err := os.Stat(filepath.Join(root, filepath.FromSlash(path.Clean("/"+filename+"."+ext)))); err == nil {
 			filename = filename + "." + ext
 			s.encoding = encoding
 			break
